@@ -24,8 +24,8 @@ LEVEL = "exploration"
 RULE = ("seeded random cases: operator and call form (factory / operator / iterable or generator argument / handler "
         "function / source factory), 0..4 probe sources (cold, some hot or synchronous) with 0..3 elements ending in "
         "C / E / never (biased towards the kind the operator continues on), counts 0..4 and unbounded counts cut by "
-        "take(k), subscription with scheduler=TestScheduler or without a scheduler argument (operators then fall back to "
-        "the CurrentThreadScheduler trampoline), repeated sources either one probe or a defer() handing out a different probe per attempt; "
+        "take(k), subscription with scheduler=TestScheduler, without a scheduler argument (operators then fall back to "
+        "the CurrentThreadScheduler trampoline) or with scheduler=ImmediateScheduler() (their steps run inline, recursively), repeated sources either one probe or a defer() handing out a different probe per attempt; "
         "non-trivial = at least two source subscriptions happened; distinct = digest of (operator, form, parameters, "
         "source timelines)")
 ASSUMPTIONS = ["reactivex.testing.TestScheduler is the clock (checked by C28)", "probe sources are harness code (conforming)",
@@ -35,7 +35,8 @@ UNIT_TIMEOUT = {"quick": 300, "thorough": 3600}
 OPS = ["concat", "concat_with_iterable", "for_in", "start_with", "repeat", "retry", "catch", "on_error_resume_next",
        "while_do", "do_while"]
 REQUIRED = {"set:ops": len(OPS), "subscriptions_checked": {"quick": 5000, "thorough": 100000},
-            "continuations_checked": {"quick": 2000, "thorough": 40000}, "count_exhausted_cases": {"quick": 50, "thorough": 1000}}
+            "continuations_checked": {"quick": 2000, "thorough": 40000}, "count_exhausted_cases": {"quick": 50, "thorough": 1000},
+            "cases_subscribed_with_immediate_scheduler": {"quick": 600, "thorough": 30000}}
 
 CONT = {"concat": "C", "concat_with_iterable": "C", "for_in": "C", "start_with": "C", "repeat": "C", "while_do": "C",
         "do_while": "C", "catch": "E", "retry": "E", "on_error_resume_next": "CE"}
@@ -124,6 +125,10 @@ def gen_case(r: Any, idx: int) -> dict:
     if "take" not in P and r.random() < 0.12:
         P["take"] = r.randint(1, 4)
     P["scheduler_arg"] = r.random() < 0.7
+    # a fifth of the cases: scheduler=ImmediateScheduler() (the operators' own steps run inline, recursively)
+    P["immediate"] = r.random() < 0.2
+    if P["immediate"]:
+        P["scheduler_arg"] = False
     return {"op": op, "P": P, "srcs": srcs, "plan": plan, "domain": domain}
 
 
@@ -257,6 +262,7 @@ def monitor(case: dict, lab: Lab, t0: float) -> tuple[list, list, dict]:
     prev_close = "nothing"
     last_closed: tuple | None = None  # (name, sid) closed by its terminal notification, handle maybe not yet disposed
     released: set = set()
+    top_disposed = False
     for e in lab.ev:
         kind = e[2]
         if kind == "sub":
@@ -304,8 +310,14 @@ def monitor(case: dict, lab: Lab, t0: float) -> tuple[list, list, dict]:
             else:
                 may_continue = False
                 put(e[1], k, v)
+        elif kind == "dispose_call" and e[3] == "top":
+            top_disposed = True
         elif kind == "unsub":
             released.add((e[3], e[4]))
+            if (e[3], e[4]) == cur and out_open and not top_disposed:
+                # nobody asked for it: the subscriber is still subscribed, the output has not ended, the source has not terminated
+                problems.append(("abandoned", "%s#%d was unsubscribed at seq %d before it terminated, while the output was still open "
+                                 "and the subscriber still subscribed: the rest of the concatenation is lost" % (e[3], e[4], e[0])))
             if (e[3], e[4]) == cur:
                 cur = None
                 may_continue = False
@@ -339,7 +351,7 @@ def run_case(seed: int, idx: int, res: UnitResult) -> None:
     lab = new_lab()
     S = {s["name"]: build_source(lab, s) for s in case["srcs"]}
     info: dict = {}
-    top = run_pipeline(lab, lambda: build(case, lab, S, info), with_scheduler=case["P"]["scheduler_arg"])
+    top = run_pipeline(lab, lambda: build(case, lab, S, info), with_scheduler=case["P"]["scheduler_arg"], immediate=case["P"].get("immediate", False))
     actual = top.timed()
     expected, problems, st = monitor(case, lab, SUB_AT)
     desc = describe(case)
@@ -360,7 +372,9 @@ def run_case(seed: int, idx: int, res: UnitResult) -> None:
         res.note("ops_subscribing_after_output_ended", case["op"] + ":" + str(case["P"].get("form", "")))
     if "take" in case["P"]:
         res.count("cases_cut_by_take")
-    if not case["P"]["scheduler_arg"]:
+    if case["P"].get("immediate"):
+        res.count("cases_subscribed_with_immediate_scheduler")
+    elif not case["P"]["scheduler_arg"]:
         res.count("cases_subscribed_without_scheduler_argument")
     if any(s["kind"] == "sync" for s in case["srcs"]):
         res.count("cases_with_sync_source")
